@@ -85,31 +85,31 @@ mod mac_nested__exp;
 mod mac_local_names__par;
 mod mac_block__exppar;
 mod stress_lat__pari;
-mod rnd_core_02__par;
-mod rnd_core_05__ser;
-mod rnd_core_07__pari;
-mod rnd_core_10__par;
-mod rnd_core_13__ser;
-mod rnd_core_15__pari;
-mod rnd_core_18__par;
-mod rnd_core_21__ser;
-mod rnd_core_23__pari;
-mod rnd_core_26__par;
-mod rnd_core_29__ser;
-mod rnd_agg_01__pari;
-mod rnd_agg_04__par;
-mod rnd_agg_07__ser;
-mod rnd_agg_09__pari;
-mod rnd_agg_12__par;
-mod rnd_agg_15__ser;
-mod rnd_prec_02__ser;
-mod rnd_prec_03__to;
-mod rnd_prec_05__par;
-mod rnd_prec_06__topar;
-mod rnd_prec_08__pari;
-mod rnd_prea_02__pari;
-mod rnd_prea_05__par;
-mod rnd_prea_08__ser;
+mod rnd_core_01__par;
+mod rnd_core_04__ser;
+mod rnd_core_06__pari;
+mod rnd_core_09__par;
+mod rnd_core_12__ser;
+mod rnd_core_14__pari;
+mod rnd_core_17__par;
+mod rnd_core_20__ser;
+mod rnd_core_22__pari;
+mod rnd_core_25__par;
+mod rnd_core_28__ser;
+mod rnd_core_30__pari;
+mod rnd_agg_03__par;
+mod rnd_agg_06__ser;
+mod rnd_agg_08__pari;
+mod rnd_agg_11__par;
+mod rnd_agg_14__ser;
+mod rnd_prec_01__pari;
+mod rnd_prec_03__ser;
+mod rnd_prec_04__to;
+mod rnd_prec_06__par;
+mod rnd_prec_07__topar;
+mod rnd_prea_01__pari;
+mod rnd_prea_04__par;
+mod rnd_prea_07__ser;
 
 fn lookup(name: &str) -> fn() -> Box<dyn Driven> {
    match name {
@@ -190,31 +190,31 @@ fn lookup(name: &str) -> fn() -> Box<dyn Driven> {
       "mac_local_names__par" => mac_local_names__par::make,
       "mac_block__exppar" => mac_block__exppar::make,
       "stress_lat__pari" => stress_lat__pari::make,
-      "rnd_core_02__par" => rnd_core_02__par::make,
-      "rnd_core_05__ser" => rnd_core_05__ser::make,
-      "rnd_core_07__pari" => rnd_core_07__pari::make,
-      "rnd_core_10__par" => rnd_core_10__par::make,
-      "rnd_core_13__ser" => rnd_core_13__ser::make,
-      "rnd_core_15__pari" => rnd_core_15__pari::make,
-      "rnd_core_18__par" => rnd_core_18__par::make,
-      "rnd_core_21__ser" => rnd_core_21__ser::make,
-      "rnd_core_23__pari" => rnd_core_23__pari::make,
-      "rnd_core_26__par" => rnd_core_26__par::make,
-      "rnd_core_29__ser" => rnd_core_29__ser::make,
-      "rnd_agg_01__pari" => rnd_agg_01__pari::make,
-      "rnd_agg_04__par" => rnd_agg_04__par::make,
-      "rnd_agg_07__ser" => rnd_agg_07__ser::make,
-      "rnd_agg_09__pari" => rnd_agg_09__pari::make,
-      "rnd_agg_12__par" => rnd_agg_12__par::make,
-      "rnd_agg_15__ser" => rnd_agg_15__ser::make,
-      "rnd_prec_02__ser" => rnd_prec_02__ser::make,
-      "rnd_prec_03__to" => rnd_prec_03__to::make,
-      "rnd_prec_05__par" => rnd_prec_05__par::make,
-      "rnd_prec_06__topar" => rnd_prec_06__topar::make,
-      "rnd_prec_08__pari" => rnd_prec_08__pari::make,
-      "rnd_prea_02__pari" => rnd_prea_02__pari::make,
-      "rnd_prea_05__par" => rnd_prea_05__par::make,
-      "rnd_prea_08__ser" => rnd_prea_08__ser::make,
+      "rnd_core_01__par" => rnd_core_01__par::make,
+      "rnd_core_04__ser" => rnd_core_04__ser::make,
+      "rnd_core_06__pari" => rnd_core_06__pari::make,
+      "rnd_core_09__par" => rnd_core_09__par::make,
+      "rnd_core_12__ser" => rnd_core_12__ser::make,
+      "rnd_core_14__pari" => rnd_core_14__pari::make,
+      "rnd_core_17__par" => rnd_core_17__par::make,
+      "rnd_core_20__ser" => rnd_core_20__ser::make,
+      "rnd_core_22__pari" => rnd_core_22__pari::make,
+      "rnd_core_25__par" => rnd_core_25__par::make,
+      "rnd_core_28__ser" => rnd_core_28__ser::make,
+      "rnd_core_30__pari" => rnd_core_30__pari::make,
+      "rnd_agg_03__par" => rnd_agg_03__par::make,
+      "rnd_agg_06__ser" => rnd_agg_06__ser::make,
+      "rnd_agg_08__pari" => rnd_agg_08__pari::make,
+      "rnd_agg_11__par" => rnd_agg_11__par::make,
+      "rnd_agg_14__ser" => rnd_agg_14__ser::make,
+      "rnd_prec_01__pari" => rnd_prec_01__pari::make,
+      "rnd_prec_03__ser" => rnd_prec_03__ser::make,
+      "rnd_prec_04__to" => rnd_prec_04__to::make,
+      "rnd_prec_06__par" => rnd_prec_06__par::make,
+      "rnd_prec_07__topar" => rnd_prec_07__topar::make,
+      "rnd_prea_01__pari" => rnd_prea_01__pari::make,
+      "rnd_prea_04__par" => rnd_prea_04__par::make,
+      "rnd_prea_07__ser" => rnd_prea_07__ser::make,
       _ => panic!("no such program variant in this shard: {}", name),
    }
 }
